@@ -414,8 +414,20 @@ def pred_c18(case, impl, model, ctx):
 
 # ---- C06 ------------------------------------------------------------------------------
 
+def c06_version_zero_case():
+    """KNOWN FINDING (known-findings.txt, open): a segment frame whose version byte is corrupted to 0 is not an ASAM CMP frame any more —
+    Decoder::decode hands every buffer that starts with 0x00 to the TECMP decoder.  With stream id 3 (= TECMP message type `data`) and
+    sequence counter 2 (= TECMP data type `CAN`) the corrupted first segment of an Ethernet message parses as a TECMP CAN message and a CAN
+    packet that nobody sent is delivered (proved of the model: C06S.VersionZero.delivered, delivered_any, ghost_not_sent).  The script is
+    fixed (no randomness) so that its signature identifies exactly this input."""
+    eth = bytes([0, 4, 0, 0, 0, 30]) + bytes([7]) * 30
+    ops = [proto.Pkt(0x01FF, b"\x01").line("z"), proto.Pkt(0x0108, eth).line("p"), "enc e dev 2", "enc e stream 3", "enc e encode 0 48 z", "enc e encode 0 48 p",
+           "dec c feedsel e 0 1", "dec d feedsel e 0:v0 1", "dec d pending"]
+    return Case("c06", ops, nontrivial=True, tags=("version-byte-zero",), meta={"items": ["0:v0", "1"], "nfr": 2, "noshrink": True})
+
+
 def gen_c06(tier, rng):
-    cases = []
+    cases = [c06_version_zero_case()]
     n = 500 if tier == "quick" else 6000
     for ci in range(n):
         mx = rng.choice([25, 30, 40, 64, 100])
